@@ -633,6 +633,7 @@ let run_net args lib =
     let h = host_of c in
     let hs0 = String.concat "" (List.map (fun c -> String.make 1 (Char.chr (int_of_n c land 255))) h) in
     if hs0 = Printf.sprintf "127.1.%d.%d" ((nc.base lsr 8) land 255) (nc.base land 255) then 6 else
+    if hs0 = Printf.sprintf "[::1]:%d" (nc.base + 10) then 7 else
     match h with
     | a :: b :: c1 :: d :: e :: f :: g :: h8 :: k :: _ when List.map int_of_n [a;b;c1;d;e;f;g;h8] = [49;50;55;46;48;46;48;46] ->
       let hi = int_of_n k - 49 in
@@ -646,7 +647,7 @@ let run_net args lib =
       ((match info.(ui) with Some x -> (x.host, x.uri) | None -> ([], [])), ((if fin = 3 then [] else resp), (if fin = 3 then BBad else body)))) nc.world bodies in
   let w c =
     let hi = host_index c in
-    let dial = hi = 6 || (hi >= 0 && hi < 6 && List.nth nc.modes hi = 0) in
+    let dial = hi = 6 || hi = 7 || (hi >= 0 && hi < 6 && List.nth nc.modes hi = 0) in
     match List.assoc_opt (host_of c, uri_of c) world_tbl with
     | Some (resp, body) -> { e_dial = dial; e_bytes = resp; e_body = body }
     | None -> { e_dial = dial; e_bytes = not_found_bytes; e_body = BBad } in
